@@ -17,6 +17,7 @@ from happysimulator.components.queue_policy import FIFOQueue, QueuePolicy
 from happysimulator.components.queued_resource import QueuedResource
 from happysimulator.components.server.concurrency import (
     ConcurrencyModel,
+    DynamicConcurrency,
     FixedConcurrency,
 )
 from happysimulator.distributions.constant import ConstantLatency
@@ -102,6 +103,10 @@ class Server(QueuedResource):
             self._concurrency_model = FixedConcurrency(concurrency)
         else:
             self._concurrency_model = concurrency
+
+        if isinstance(self._concurrency_model, DynamicConcurrency):
+            # Raising the limit at run time must pull waiting requests into the new slots
+            self._concurrency_model.on_limit_raised(self.capacity_changed)
 
         self._service_time = service_time or ConstantLatency(0.01)
         self._downstream = downstream
